@@ -754,7 +754,7 @@ fn main() {
     std::fs::create_dir_all(&scratch).unwrap();
     let template = scratch.join("template.sqlite3");
     make_template(&template);
-    let nhist = if args.thorough() { 400 } else { 60 };
+    let nhist = if args.thorough() { 1500 } else { 160 };
     let only = args.only;
 
     // ---- fixed histories: the flows of the unit tests and of the documentation ------------------------------------------
